@@ -308,60 +308,89 @@ def complex_fold(n):
 
 
 def check_imaginary_unit(F, run):
+    """R11.5 — IEEE detail the exact product identities cannot see: a *constant* square root in idft (the imaginary unit is built as the root of
+    −1) is evaluated in Complex<f64> arithmetic with signed zeros; −1−0i has the principal root −i, which conjugates every complex product
+    computed through the FFT path.  Every constant-foldable `sqrt` in idft (wherever it sits: in the mapping closure, hoisted into a `let`, in an
+    Option) must not evaluate to a negative imaginary number."""
     idft = PI.poly_method(F, "idft")
-    # the closure that rebuilds re + unit * im in the complex branch
-    sites = []
+    run.analysed(idft)
+    n_sites = 0
     for n in walk(idft["body"]):
-        if n.get("k") == "Bin" and n["op"] == "Mul":
-            r = peel(n["r"])
-            if r.get("k") == "Call" and (callee(r) or "").endswith("from_real") and "c.im" in pp(r):
-                sites.append((n, n["l"]))
-            l = peel(n["l"])
-            if l.get("k") == "Call" and (callee(l) or "").endswith("from_real") and "c.im" in pp(l):
-                sites.append((n, n["r"]))
-    if not run.check(len(sites) == 1, "R11.5", "Polynomial::idft", "site", F.loc(idft),
-                     "expected one place where the imaginary part is multiplied by the imaginary unit, found %d" % len(sites)):
-        return
-    node, unit = sites[0]
-    try:
-        v = complex_fold(unit)
-    except Missing as e:
-        run.broken("R11.5", "Polynomial::idft", "unit", F.loc(idft, node), str(e))
-        return
-    run.check(v == complex(0.0, 1.0) and str(v.real) in ("0.0", "-0.0") and v.imag == 1.0, "R11.5", "Polynomial::idft", "unit=+i", F.loc(idft, node),
-              "the imaginary unit `%s` evaluates to %r in Complex<f64> arithmetic (−1−0i has the principal square root −i): every complex product computed "
-              "through the FFT path comes back conjugated" % (pp(unit)[:50], v), sample="unit `%s` = %r" % (pp(unit)[:40], v))
+        if n.get("k") == "MCall" and n["name"] == "sqrt":
+            try:
+                v = complex_fold(n)
+            except Missing:
+                continue                      # not a constant: an ordinary square root of data
+            n_sites += 1
+            good = not (abs(v.real) < 1e-300 and v.imag < 0)
+            run.check(good, "R11.5", "Polynomial::idft", "unit=+i", F.loc(idft, n),
+                      "the constant `%s` evaluates to %r in Complex<f64> arithmetic (−1−0i has the principal square root −i): every complex product computed "
+                      "through the FFT path comes back conjugated" % (pp(n)[:50], v), sample="constant root `%s` = %r" % (pp(n)[:40], v))
+    if n_sites == 0:
+        run.observe("R11.5", F.loc(idft), "idft contains no constant square root: the imaginary unit is not built from a signed-zero-sensitive root (the exact identities of R11.1/R11.2 decide its value)")
 
 
 def check_nonempty(F, run):
-    n_pop = 0
+    """R11.6 — the coefficient vector never becomes empty (every operator assumes at least one coefficient).  Decided by executing the editing
+    methods that shorten it — found by their effect, `pop` / `truncate` / `clear` / `remove` / `drain` on `coefficients`, not by their text — on
+    every length 1..3 with generic and with all-zero coefficients and every power 0..3; a shortening site in a function without scenarios
+    fails closed."""
+    shrinkers = {}
     for b in F.bodies:
         if not b["file"].startswith("src/polynomial"):
             continue
         for n in walk(b["body"]):
-            if n.get("k") == "MCall" and n["name"] in ("pop", "truncate", "clear") and (place(n["recv"]) or "").endswith("coefficients"):
-                n_pop += 1
-                run.analysed(b)
-                g = cfg.guards_of(b["body"], n)
-                ok = False
-                for l in cfg.conj_lits(g):
-                    t = pp(l[1])
-                    if l[2] and "coefficients.len()" in t and ("> 1" in t or ">= 2" in t or "!= 1" in t):
-                        ok = True
-                # match-arm guard form: `len if len == power && len != 1`
-                pm = cfg.parent_map(b["body"])
-                for a in cfg.ancestors(pm, n):
-                    if a.get("k") == "Match":
-                        for arm in a["arms"]:
-                            if any(x is n for x in walk(arm["body"])) and "guard" in arm and ("!= 1" in pp(arm["guard"]) or "> 1" in pp(arm["guard"])):
-                                ok = True
-                    if a.get("k") == "If" and any(x is n for x in walk(a["t"])):
-                        t = pp(a["c"])
-                        if ("len != 1" in t or "len > 1" in t or "coefficients.len() > 1" in t):
-                            ok = True
-                run.check(ok, "R11.6", b["path"], "pop-guarded", F.loc(b, n), "`%s` can empty the coefficient vector (no `len > 1` guard)" % pp(n)[:50],
-                          sample="%s: %s under len > 1" % (b["name"], pp(n)[:40]))
-    run.floor("R11.6", "polynomial", "pop sites", n_pop, 2)
+            if n.get("k") == "MCall" and n["name"] in ("pop", "truncate", "clear", "remove", "drain", "split_off", "retain") and (place(n["recv"]) or "").endswith("coefficients"):
+                shrinkers.setdefault(b["path"], (b, []))[1].append(n)
+    n_sites = sum(len(v[1]) for v in shrinkers.values())
+    run.floor("R11.6", "polynomial", "pop sites", n_sites, 2)
+    covered = set()
+
+    def run_case(name, args, inst, b):
+        try:
+            PI.call(F, b, args, seconds=SECONDS.get("quick", 25))
+        except vecint.IndexPanic as e:
+            run.fail("R11.6", b["path"], "panic:" + inst, F.loc(b), "abstract execution panics: %s" % e.why)
+            return
+        except (sym.Unsupported, vecint.Budget) as u:
+            run.broken("R11.6", b["path"], inst, F.loc(b, u.node if isinstance(getattr(u, "node", None), dict) else None), str(u))
+            return
+        cs = PI.coeffs(args[0])
+        run.check(len(cs) >= 1, "R11.6", b["path"], "pop-guarded", F.loc(b), "%s(%s) on %s leaves an empty coefficient vector" % (name, ", ".join(str(a) for a in args[1:]), inst),
+                  sample="%s on %s keeps >= 1 coefficient" % (name, inst))
+    for path, (b, sites) in sorted(shrinkers.items()):
+        if (b.get("impl_self") or "") != "polynomial::Polynomial<N>" or b.get("impl_trait"):
+            continue
+        params = b["params"]
+        tys = [(q.get("ty") or "") for q in params]
+        if not params or params[0].get("name") != "self" or not tys[0].startswith("&mut"):
+            continue
+        run.analysed(b)
+        extra = tys[1:]
+        if any(t not in ("usize", "u32", "u64") for t in extra) or len(extra) > 1:
+            continue
+        covered.add(path)
+        for nlen in (1, 2, 3):
+            for kind, cs in (("generic", PI.symbols("a", nlen)), ("zeros", [sp.Integer(0)] * nlen), ("zero-lead", PI.symbols("a", nlen - 1) + [sp.Integer(0)])):
+                if extra:
+                    for k in range(0, nlen + 2):
+                        run_case(b["name"], [PI.poly(list(cs)), sp.Integer(k)], "len=%d,%s,arg=%d" % (nlen, kind, k), b)
+                else:
+                    run_case(b["name"], [PI.poly(list(cs))], "len=%d,%s" % (nlen, kind), b)
+    # shortening sites elsewhere (division's remainder trimming, …): the loop or branch they sit in must keep one coefficient
+    for path, (b, sites) in sorted(shrinkers.items()):
+        if path in covered:
+            continue
+        run.analysed(b)
+        for n in sites:
+            g = cfg.guards_of(b["body"], n)
+            ok = False
+            for l in cfg.conj_lits(g):
+                t = pp(l[1])
+                if l[2] and "coefficients.len()" in t and ("> 1" in t or ">= 2" in t or "!= 1" in t):
+                    ok = True
+            run.check(ok, "R11.6", b["path"], "pop-guarded", F.loc(b, n), "`%s` can empty the coefficient vector (no `len > 1` guard, and no scenario model for this function)" % pp(n)[:50],
+                      sample="%s: %s under len > 1" % (b["name"], pp(n)[:40]))
 
 
 def run(F, run, tier):
